@@ -51,6 +51,20 @@
 (* ticks (2h30m for LiveLife = 3, 1h30m for NonLiveLife = 2), i.e.         *)
 (* strictly between two ticks, so `age < Life` is exactly the code's       *)
 (* `time.Since(cachedTime) < expiration`.                                  *)
+(*                                                                         *)
+(* Boundary resolution.  With 1 h ticks the first age at which an entry    *)
+(* must be re-probed (age = Life) is 1.2x / 1.33x of the configured        *)
+(* lifetime.  The *_boundary instances use a FINE tick (3 min: LiveLife =  *)
+(* 50, NonLiveLife = 30, driver lifetimes 2h28m30s / 1h28m30s, again half  *)
+(* a tick short) and Steps that land queries just below the lifetime       *)
+(* (<= 0.9x: 44, 26 ticks), AT it (age = Life: 1.01x / 1.02x) and just     *)
+(* after (Life + 2 / + 4 ticks: up to 1.09x).  The specification is        *)
+(* symmetric in Addrs; the driver replays every boundary behaviour under   *)
+(* many injective address maps (>= 64 concrete IPs per abstract address),  *)
+(* so a lifetime that depends on the address is covered.                   *)
+(* ExpiryJitter > 0 is the broken instance for this dimension: an entry    *)
+(* is served (and kept by the clean-up) until Life + ExpiryJitter ticks    *)
+(* -> HitIsFresh is violated by a query at age = Life.                     *)
 (***************************************************************************)
 EXTENDS Naturals, FiniteSets, Sequences, TLC
 
@@ -60,7 +74,8 @@ CONSTANTS Addrs,        \* set of strings
           MaxAge,       \* age cap (>= both lifetimes)
           Steps,        \* admissible time advances
           KindRule,     \* "own" | "live" | "unread"
-          Bug           \* "none" | "evict_noop" | "age_flip" | "wrong_cache"
+          Bug,          \* "none" | "evict_noop" | "age_flip" | "wrong_cache"
+          ExpiryJitter  \* 0 (intended) | n > 0: broken instance, an entry is treated as fresh until lifetime + n ticks
 
 VARIABLES cfg,      \* configuration + cache kinds, fixed by Init
           live,     \* [Addrs -> {None} \cup [age]]   verdict map of the live cache
@@ -91,7 +106,7 @@ LiveOn    == cfg.lk # "off"
 NonLiveOn == cfg.nk # "off"
 
 \* ---------------------------------------------------------------- helpers
-Fresh(e, life) == IF Bug = "age_flip" THEN e.age >= life ELSE e.age < life
+Fresh(e, life) == IF Bug = "age_flip" THEN e.age >= life ELSE e.age < life + ExpiryJitter
 Without(s, a) == SelectSeq(s, LAMBDA x : x # a)
 Front(s, a) == <<a>> \o Without(s, a)
 Bump(n, d) == IF n + d > MaxAge THEN MaxAge ELSE n + d
@@ -170,8 +185,8 @@ Advance(d) ==
 \* ClearExpiredCache: entries older than the lifetime of their cache are removed (LRU: lru.Remove, whose
 \* callback deletes the map entry)
 ClearExpired ==
-  LET exL == {a \in Entries(live) : live[a].age >= LiveLife}
-      exN == {a \in Entries(nonlive) : nonlive[a].age >= NonLiveLife} IN
+  LET exL == {a \in Entries(live) : live[a].age >= LiveLife + ExpiryJitter}
+      exN == {a \in Entries(nonlive) : nonlive[a].age >= NonLiveLife + ExpiryJitter} IN
   /\ live' = [a \in Addrs |-> IF a \in exL THEN None ELSE live[a]]
   /\ nonlive' = [a \in Addrs |-> IF a \in exN THEN None ELSE nonlive[a]]
   /\ lorder' = SelectSeq(lorder, LAMBDA x : x \notin exL)
